@@ -40,16 +40,17 @@ GoodLzma ==
        /\ ClassOk(cl)
        /\ GainOf(p, Len(p)) > 0
        /\ LzmaChunk([k |-> "lzma", class |-> cl, newprops |-> IF cl >= 2 THEN d.props + 1 ELSE 0, prog |-> p,
-                     u |-> GainOf(p, Len(p)), pk |-> "exact"])
+                     u |-> GainOf(p, Len(p)), pk |-> "exact", eos |-> FALSE])
 FaultyLzma ==
   /\ NChunks < MaxChunks
-  /\ \E cl \in 0..3, p \in Progs, f \in {"u+1", "u-1", "short", "long"} :
+  /\ \E cl \in 0..3, p \in Progs, f \in {"u+1", "u-1", "short", "long", "eos", "eos+1", "eos+9"} :
        /\ ClassOk(cl)
        /\ GainOf(p, Len(p)) > (IF f = "u-1" THEN 1 ELSE 0)
        /\ (ProgOut([st |-> 0, rep |-> <<0,0,0,0>>, out |-> IF cl = 3 THEN <<>> ELSE d.cs.out], p).ok \/ cl = 0)
        /\ LzmaChunk([k |-> "lzma", class |-> cl, newprops |-> IF cl >= 2 THEN d.props + 1 ELSE 0, prog |-> p,
-                     u |-> GainOf(p, Len(p)) + (IF f = "u+1" THEN 1 ELSE IF f = "u-1" THEN -1 ELSE 0),
-                     pk |-> IF f = "short" THEN "short" ELSE IF f = "long" THEN "long" ELSE "exact"])
+                     u |-> GainOf(p, Len(p)) + (IF f \in {"u+1", "eos+1"} THEN 1 ELSE IF f = "eos+9" THEN 9 ELSE IF f = "u-1" THEN -1 ELSE 0),
+                     pk |-> IF f = "short" THEN "short" ELSE IF f = "long" THEN "long" ELSE "exact",
+                     eos |-> f \in {"eos", "eos+1", "eos+9"}])
 Raw ==
   /\ NChunks < MaxChunks
   /\ \E rs \in BOOLEAN, dt \in Datas, sh \in BOOLEAN :
